@@ -84,6 +84,17 @@ def _entry(case):
                 res[name] = (1 if t else 0, t)
             except PyMarkdownApiException as e:
                 res[name] = ("err", str(e)[:150])
+        # the same file as the second of two files of a directory scan (the first one full of suppressing pragmas)
+        dd = os.path.join(d, "dd")
+        os.makedirs(dd)
+        open(os.path.join(dd, "a0.md"), "w").write("<!-- pyml disable-num-lines 60 md001,md009,md010,md012,md013,md018,md019,md022,md023,md025,md031,md032,md041,md047-->\n" + "x\n" * 3)
+        open(os.path.join(dd, "f.md"), "wb").write(data)
+        try:
+            r = api().scan_path(dd)
+            t = [(f.line_number, f.column_number, f.rule_id, f"{f.rule_description}{f.extra_error_information or ''} ({f.rule_name})") for f in r.scan_failures if f.scan_file.endswith("f.md")]
+            res["api-directory"] = (1 if t else 0, t)
+        except PyMarkdownApiException as e:
+            res["api-directory"] = ("err", str(e)[:150])
         # fix: in place vs fix_string vs fix_path
         code, out, err = impl.run_cli(argv + ["fix", "f.md"], cwd=d)
         fixed_cli = open(p, "rb").read().decode("utf-8") if code in (0, 3) else None
@@ -131,9 +142,12 @@ def _locale(doc):
 
 def run(ctx):
     ctx.prove("Props/C16.v", ["Model/IO.v", "Proofs/IOProofs.v"])
-    # ---- (1) the two providers vs the model: every string of <= 6 (quick) / 8 (thorough) characters over {a, LF, CR}
+    # ---- (1) the two providers vs the model: every string of <= 6 (quick) / 8 (thorough) characters over {a, LF, CR} and of <= 4 / 5 characters over {a, LF, FF, LS, NEL}
     n = 6 if ctx.tier == "quick" else 8
     strings = [""] + list(gen.d_char(["a", "\n", "\r"], n))
+    # characters that str.splitlines() (but not a text-mode read) takes for line ends: form feed, vertical tab, FS..RS, NEL, LS, PS
+    strings += list(gen.d_char(["a", "\n", "\x0c", "\u2028", "\x85"], 4 if ctx.tier == "quick" else 5)) + ["a\x0bb\n", "a\x1cb\x1dc\x1ed\n", "a\u2029b"]
+    strings = list(dict.fromkeys(strings))
     pres = impl.pmap(_providers, strings, chunksize=64)
     cases = []
     for s, (fl, flag, ml) in zip(strings, pres):
@@ -169,7 +183,7 @@ def run(ctx):
         if ref[0] not in (0, 1) or (ref[0] == 1 and not ref[1]) or res.get("cli-file-error"):
             ctx.unit("skipped", application_errors=1)
             continue
-        for k in ("cli-stdin", "api-path", "api-string"):
+        for k in ("cli-stdin", "api-path", "api-string", "api-directory"):
             if res[k][0] == "err":
                 ctx.violation("entry", dict(inp, entry=k), f"{k} fails ({res[k][1]!r}) where the file scan reports {ref[1][:3]}", group="entry-error-" + k)
             elif res[k][1] != ref[1]:
